@@ -1134,12 +1134,14 @@ public:
 	}
 	bool set(const K &key, const V &value)
 	{
-		V *d = get(key);
-		if (!d) {
-			return _d.insert(_d.length(), entry(key, value));
+		entry *d = _d.begin();
+		for (long i = 0, len = _d.length(); i < len; ++i) {
+			if (d[i].key == key) {
+				/* private copy required for shared data */
+				return _d.set(i, entry(key, value));
+			}
 		}
-		*d = value;
-		return true;
+		return _d.insert(_d.length(), entry(key, value));
 	}
 	bool append(const K &key, const V &value)
 	{
